@@ -386,6 +386,36 @@ theorem findKV_ids_sublist (h : Nat) : ∀ (kvs : List (Key × T)) (c : T), Tr.f
       exact (findKV_ids_sublist h kvs c hf).trans (List.sublist_append_right _ _)
 end
 
+mutual
+/-- the node found by identity has that identity -/
+theorem find_self_mem (h : Nat) : ∀ (t c : T), Tr.find h t = some c → h ∈ Tr.ids c
+  | .leaf _, _, hf => by simp [Tr.find] at hf
+  | .list i xs, c, hf => by
+    simp only [Tr.find] at hf
+    split at hf
+    · rename_i e; simp only [Option.some.injEq] at hf; subst hf; simp [Tr.ids, e]
+    · exact findL_self_mem h xs c hf
+  | .dict i kvs, c, hf => by
+    simp only [Tr.find] at hf
+    split at hf
+    · rename_i e; simp only [Option.some.injEq] at hf; subst hf; simp [Tr.ids, e]
+    · exact findKV_self_mem h kvs c hf
+theorem findL_self_mem (h : Nat) : ∀ (xs : List T) (c : T), Tr.findL h xs = some c → h ∈ Tr.ids c
+  | [], _, hf => by simp [Tr.findL] at hf
+  | x :: xs, c, hf => by
+    simp only [Tr.findL] at hf
+    cases hx : Tr.find h x with
+    | some t => rw [hx] at hf; simp only [Option.some.injEq] at hf; subst hf; exact find_self_mem h x t hx
+    | none => rw [hx] at hf; exact findL_self_mem h xs c hf
+theorem findKV_self_mem (h : Nat) : ∀ (kvs : List (Key × T)) (c : T), Tr.findKV h kvs = some c → h ∈ Tr.ids c
+  | [], _, hf => by simp [Tr.findKV] at hf
+  | (k, v) :: kvs, c, hf => by
+    simp only [Tr.findKV] at hf
+    cases hx : Tr.find h v with
+    | some t => rw [hx] at hf; simp only [Option.some.injEq] at hf; subst hf; exact find_self_mem h v t hx
+    | none => rw [hx] at hf; exact findKV_self_mem h kvs c hf
+end
+
 /-! ### the invariant of states -/
 
 /-- all container identities in the objects' trees, object by object -/
@@ -674,6 +704,114 @@ theorem srun_idOK : ∀ (history : List SStep) (s : State), IdOK s → IdOK (sru
       | ext r d => exact extWrite_idOK s r d h
     exact srun_idOK rest (sstep s st) hstep
 
+/-! ### a detached handle -/
+
+theorem findSome?_append_left {α β : Type} (f : α → Option β) : ∀ (a b : List α) (x : β),
+    a.findSome? f = some x → (a ++ b).findSome? f = some x
+  | [], _, _, h => by simp at h
+  | y :: ys, b, x, h => by
+    simp only [List.findSome?, List.cons_append] at h ⊢
+    cases hy : f y with
+    | some z => rw [hy] at h; exact h
+    | none => rw [hy] at h; exact findSome?_append_left f ys b x h
+
+theorem findSome_self_mem (id : Nat) : ∀ (objs : List Obj) (c : T),
+    objs.findSome? (fun o => Tr.find id o.root) = some c → id ∈ Tr.ids c
+  | [], _, h => by simp at h
+  | x :: xs, c, hf => by
+    simp only [List.findSome?] at hf
+    cases hx : Tr.find id x.root with
+    | some t =>
+      rw [hx] at hf; simp only [Option.some.injEq] at hf; subst hf
+      exact find_self_mem id x.root t hx
+    | none => rw [hx] at hf; exact findSome_self_mem id xs c hf
+
+theorem detached_own (s : State) (a b c : Nat) : (s.own a b c).detached = s.detached := by
+  unfold State.own; split <;> rfl
+
+/-- THE CONVERSE OF ATTACHMENT.  The user holds a nested collection whose position was reassigned,
+removed or changed kind: its identity `id` is in no object's tree any more (it lives on among the
+detached nodes, still usable).  A mutation through it loads and saves its root like any other call
+— and that is ALL the backend sees: the resource ends up holding the merged content of the root,
+exactly what a bare load-and-save would leave; nothing of the operation's argument or effect
+reaches the backend, and no other position is disturbed. -/
+theorem call_detached_refines (s : State) (oi id : Nat) (o : Obj) (d : J) (t0 : T) (op : Op)
+    (ho : s.objs[oi]? = some o) (hst : s.store o.res = some d) (hown : s.ownerOf id = some oi)
+    (hok : IdOK s) (hnot : id ∉ flatIds s.objs) (hlt : id < s.next)
+    (hdet : s.detached.findSome? (fun p => Tr.find id p.2) = some t0)
+    (herr : (updNode (s.fam o) o.root d s.next).err = none)
+    (hns : op.skipsLoad = false) (hm : op.isRead = false)
+    (hpre : preValidate (s.fam o) t0.isDict op = none) :
+    (call s (.node id) op).1.store o.res = some (updNode (s.fam o) o.root d s.next).val.toBase := by
+  have hlto : oi < s.objs.length := (List.getElem?_eq_some_iff.mp ho).1
+  have hnone0 : s.objs.findSome? (fun o => Tr.find id o.root) = none := by
+    cases hf : s.objs.findSome? (fun o => Tr.find id o.root) with
+    | none => rfl
+    | some c =>
+      exact absurd ((findSome_ids_sublist id s.objs c hf).subset (findSome_self_mem id s.objs c hf)) hnot
+  have hfind0 : findNode s id = some t0 := by
+    unfold findNode; rw [hnone0]; exact hdet
+  have hload := loadRoot_eq s oi o d ho hst
+  have hlf : loadFor s oi false op = loadRoot s oi := by simp [loadFor, hns]
+  have herr1 : (loadRoot s oi).2 = none := by rw [hload]; exact herr
+  -- after the load the identity is still in no object's tree
+  have hok1 : IdOK (loadRoot s oi).1 := loadRoot_idOK s oi hok
+  have hsub := ids_sublist_flat s.objs oi o ho
+  have hs := updNode_ids (s.fam o) d o.root s.next (List.Nodup.sublist hsub hok.nodup)
+    (fun i hi => hok.bound i (hsub.subset hi))
+  have hobjs1 : (loadRoot s oi).1.objs = s.objs.set oi { o with root := (updNode (s.fam o) o.root d s.next).val } := by
+    rw [hload]
+    show ((State.own _ _ _ _).objs) = _
+    rw [objs_own]
+    rfl
+  have hstep := flat_set_step s.objs oi o (updNode (s.fam o) o.root d s.next).val ho hok.nodup hok.bound hs
+  have hnot1 : id ∉ flatIds (loadRoot s oi).1.objs := by
+    rw [hobjs1]
+    intro hin
+    rcases hstep.2.2 id hin with h | h
+    · exact hnot h
+    · omega
+  have hnone1 : (loadRoot s oi).1.objs.findSome? (fun o => Tr.find id o.root) = none := by
+    cases hf : (loadRoot s oi).1.objs.findSome? (fun o => Tr.find id o.root) with
+    | none => rfl
+    | some c =>
+      exfalso
+      exact hnot1 ((findSome_ids_sublist id (loadRoot s oi).1.objs c hf).subset (findSome_self_mem id _ c hf))
+  have hdet1 : (loadRoot s oi).1.detached.findSome? (fun p => Tr.find id p.2) = some t0 := by
+    have hd : (loadRoot s oi).1.detached = s.detached ++
+        (containers (updNode (s.fam o) o.root d s.next).det).map (fun t => (oi, t)) := by
+      rw [hload]
+      show ((State.own _ _ _ _).detached ++ _) = _
+      rw [detached_own]
+      rfl
+    rw [hd]
+    exact findSome?_append_left _ _ _ _ hdet
+  have hnode1 : handleNode (loadRoot s oi).1 (.node id) = some t0 := by
+    show findNode _ id = some t0
+    unfold findNode; rw [hnone1]; exact hdet1
+  have hobj1 : (loadRoot s oi).1.objs[oi]? = some { o with root := (updNode (s.fam o) o.root d s.next).val } := by
+    rw [hobjs1]; exact List.getElem?_set_self hlto
+  have hownr : handleOwner s (.node id) = some (oi, false) := by simp [handleOwner, hown]
+  have hn0 : handleNode s (.node id) = some t0 := hfind0
+  unfold call
+  simp only [hownr, hn0, ho]
+  unfold callOn
+  simp only [hpre, hlf, herr1, hnode1]
+  unfold finishCall
+  simp only [hm, Bool.false_eq_true, if_false]
+  have hsave : ∀ (x : State) (ob : Obj), x.objs[oi]? = some ob → (saveRoot x oi).store ob.res = some ob.root.toBase := by
+    intro x ob hx
+    unfold saveRoot; simp only [hx]; exact State.store_setStore _ _ _
+  have hobj2 : (applyBody (loadRoot s oi).1 (.node id) oi
+      (runBody (s.fam o) t0 op (loadRoot s oi).1.next)).objs[oi]? =
+      some { o with root := (updNode (s.fam o) o.root d s.next).val } := by
+    rw [applyBody_objs]
+    simp only [putNode, replaceNode]
+    rw [map_replace_of_not_mem id _ _ hnot1]
+    exact hobj1
+  have := hsave _ _ hobj2
+  split <;> exact this
+
 /-! ### ownership: a child knows its root -/
 
 /-- the owner table as a pure function of the list of ranges -/
@@ -751,6 +889,19 @@ behalf of that object (so a nested child finds the root that loads and saves for
 structure OwnOK (s : State) : Prop where
   ranges : ∀ r ∈ s.owners, r.2.2 ≤ s.next
   owner : ∀ j o, s.objs[j]? = some o → ∀ i ∈ Tr.ids o.root, s.ownerOf i = some j
+
+/-- an identity that has an owner was allocated: it lies below the counter -/
+theorem lt_next_of_owner {s : State} (hown : OwnOK s) {id a : Nat} (h : s.ownerOf id = some a) : id < s.next := by
+  rw [ownerOf_eq] at h
+  unfold ownerOfL at h
+  cases hf : s.owners.find? (fun r => decide (r.2.1 ≤ id ∧ id < r.2.2)) with
+  | none => rw [hf] at h; cases h
+  | some r =>
+    have hp := List.find?_some hf
+    have hm := List.mem_of_find?_eq_some hf
+    simp only [decide_eq_true_eq] at hp
+    have := hown.ranges r hm
+    omega
 
 /-- one object's tree makes a step and the new identities are recorded for that object -/
 theorem ownOK_set (s s' : State) (j : Nat) (oj : Obj) (new : T) (m : Nat) (hok : IdOK s) (hown : OwnOK s)
